@@ -7,7 +7,7 @@ for f in sorted(glob.glob(os.path.join(V, 'seeded', '*', 'meta.json'))):
     m = json.load(open(f))
     name = os.path.basename(os.path.dirname(f))
     c = m.get('checks', {}).get(m['property'], {})
-    line = (c.get('lines') or [''])[0]
+    line = next((l for l in (c.get('lines') or []) if l.startswith('VIOLATION')), (c.get('lines') or [''])[0])
     how = 'missed'
     if c.get('exit') == 1:
         rp = c.get('replay') or {}
